@@ -14,14 +14,24 @@
 (*  Lifecycle_wit.cfg    vacuity: some behaviour exercises every clause.      *)
 EXTENDS Lifecycle, Json, SequencesExt
 
-CONSTANTS MaxLen,      \* bound on the length of hist (0 = unbounded; needs a VIEW)
+CONSTANTS
+          \* @type: Int;
+          MaxLen,      \* bound on the length of hist (0 = unbounded; needs a VIEW)
+          \* @type: Str;
           AlphaSel     \* "core" | "mid" | "full": which letters may be sent
 
-VARIABLES st,          \* code-shaped session state
+VARIABLES
+          \* @type: $lcst;
+          st,          \* code-shaped session state
+          \* @type: $lcmu;
           mu,          \* the property's phase tracker
+          \* @type: Seq($letter);
           hist,        \* letters sent so far
+          \* @type: Set(Str);
           bad,         \* clauses violated by the last step
+          \* @type: Bool;
           lead,        \* the last step is an instance of the documented lead (UngatedLead)
+          \* @type: Set(Str);
           seen         \* clauses whose premise has been true on some step (vacuity)
 vars == <<st, mu, hist, bad, lead, seen>>
 
@@ -29,15 +39,19 @@ vars == <<st, mu, hist, bad, lead, seen>>
 \* (each of the three meta classes once more in a non-plain spelling of its keys, and some presentations of the
 \* metadata other than the ordinary one: a case variant of `_meta` alone / next to an incomplete `_meta`,
 \* duplicate `_meta` members ending in an unsupported version / in null)
+\* (Pair(a, b) is <<a, b>>: Apalache needs to be told that it is a tuple, not a sequence)
+\* @type: (Str, Str) => <<Str, Str>>;
+Pair(a, b) == <<a, b>>
 MidLetters == {l \in Letters : /\ l.mt \in {"none", "ok", "nocaps", "newer"}
                                /\ \/ (l.mk = "exact" /\ l.sp = "plain")
-                                  \/ (l.mk = "exact" /\ <<l.mt, l.sp>> \in {<<"ok", "uni">>, <<"nocaps", "esc">>, <<"newer", "esc">>})
-                                  \/ <<l.mt, l.mk>> \in {<<"ok", "case">>, <<"nocaps", "both">>, <<"newer", "dup">>,
-                                                         <<"ok", "dupnull">>, <<"ok", "idup">>}}
+                                  \/ (l.mk = "exact" /\ Pair(l.mt, l.sp) \in {Pair("ok", "uni"), Pair("nocaps", "esc"), Pair("newer", "esc")})
+                                  \/ Pair(l.mt, l.mk) \in {Pair("ok", "case"), Pair("nocaps", "both"), Pair("newer", "dup"),
+                                                            Pair("ok", "dupnull"), Pair("ok", "idup")}}
 Alpha == CASE AlphaSel = "core" -> CoreLetters [] AlphaSel = "mid" -> MidLetters [] OTHER -> Letters
 
 Init == /\ st = St0 /\ mu = Mu0 /\ hist = <<>> /\ bad = {} /\ lead = FALSE /\ seen = {}
 
+\* @type: (Str, Str, Str, Str, Str) => Bool;
 Do(m, mt, ip, sp, mk) ==
   LET l == L(m, mt, ip, sp, mk)
       n == Len(hist) + 1
@@ -75,8 +89,10 @@ TypeOK == /\ st.ip \in IpClasses /\ st.idp \in BOOLEAN /\ (st.ip = "nil" <=> st.
 
 \* ---- the (phase x message) table: the whole row of the current joint state, evaluated as a state
 \* predicate (so it is sound under TableView, which hides hist, bad and lead)
+\* @type: $letter => Set(Str);
 RowFailed(l) == Failed(mu, l, Step(st, l, Len(hist) + 1).o, TRUE)
 RowOK == \A l \in Alpha : RowFailed(l) = {} \/ (UngatedLead(mu, l) /\ RowFailed(l) = {"GateBeforeInit"})
+\* @type: Str => Bool;
 RowClauseOK(c) == \A l \in Alpha : c \in RowFailed(l) => (c = "GateBeforeInit" /\ UngatedLead(mu, l))
 RowGateBeforeInit == RowClauseOK("GateBeforeInit")
 RowDuplicateInitRejected == RowClauseOK("DuplicateInitRejected")
@@ -93,6 +109,7 @@ TableView == <<st.ip, st.idp, mu.acc, mu.inited, mu.modern>>
 WitView == <<st.ip, st.idp, mu.acc, mu.inited, mu.modern, seen>>
 
 \* ---- export of complete sequences (used as an invariant: evaluated once per distinct state)
+\* @type: $letter => $letter;
 LetterJson(l) == [m |-> l.m, mt |-> l.mt, ip |-> l.ip, sp |-> l.sp, mk |-> l.mk]
 Export == IF MaxLen > 0 /\ Len(hist) = MaxLen
           THEN PrintT(ToJson([seq |-> [i \in 1..Len(hist) |-> LetterJson(hist[i])]]))
